@@ -33,6 +33,29 @@ Theorem c06_normal_eq_iff_minimiser (C O : IPS) (X : C -> O) :
 Proof. intros Ha Hs y c. exact (normal_eq_iff_minimiser C O X Ha Hs y c). Qed.
 Print Assumptions c06_normal_eq_iff_minimiser.
 
+(** From coefficients to tensors: with E the expansion onto the admissible space (C04: Adm phi <-> exists c, phi = E c), D the
+    design on full tensors and X = D o E the matrix the solver accumulates, the returned coefficients solve the normal equations
+    of X  <->  the returned TENSOR is admissible and no admissible tensor has a smaller residual.  Instance: Admissible.admissible_instance. *)
+From SymfcV Require Admissible.
+Theorem c06_fit_minimises_over_admissible_tensors (C F O : IPS) (E : C -> F) (D : F -> O) (Adm : F -> Prop) :
+  (forall c d, E (vadd c d) = vadd (E c) (E d)) -> (forall a c, E (vscale a c) = vscale a (E c)) ->
+  (forall p q, D (vadd p q) = vadd (D p) (D q)) -> (forall a p, D (vscale a p) = vscale a (D p)) ->
+  (forall phi, Adm phi <-> exists c, phi = E c) ->
+  forall y c, normal_eq C O (Admissible.Xd C F O E D) y c <->
+              (Adm (E c) /\ forall phi, Adm phi -> Admissible.fcost F O D y (E c) <= Admissible.fcost F O D y phi)%R.
+Proof. intros Ea Es Da Ds Hs y c. exact (Admissible.fit_minimises_over_admissible C F O E D Adm Ea Es Da Ds Hs y c). Qed.
+Print Assumptions c06_fit_minimises_over_admissible_tensors.
+
+(** Data that do not determine the fit: any two solutions of the normal equations predict the same forces and have the same
+    residual, so whichever solution a solver returns is a minimiser (what "still returns a minimiser or fails loudly" allows). *)
+Theorem c06_undetermined_fits_agree_on_forces (C F O : IPS) (E : C -> F) (D : F -> O) :
+  (forall c d, E (vadd c d) = vadd (E c) (E d)) -> (forall a c, E (vscale a c) = vscale a (E c)) ->
+  (forall p q, D (vadd p q) = vadd (D p) (D q)) -> (forall a p, D (vscale a p) = vscale a (D p)) ->
+  forall y c c', normal_eq C O (Admissible.Xd C F O E D) y c -> normal_eq C O (Admissible.Xd C F O E D) y c' ->
+    Admissible.Xd C F O E D c = Admissible.Xd C F O E D c' /\ Admissible.fcost F O D y (E c) = Admissible.fcost F O D y (E c').
+Proof. intros Ea Es Da Ds y c c'. exact (Admissible.fitted_forces_unique C F O E D Ea Es Da Ds y c c'). Qed.
+Print Assumptions c06_undetermined_fits_agree_on_forces.
+
 (** The equations accumulated batch by batch (any snapshot batch size) are the equations of the whole
     dataset. *)
 Theorem c06_gram_by_batches (C O : IPS) (Snap : Type) (Xs : Snap -> C -> O) ds ys c (b : Z) : (0 < b)%Z ->
